@@ -42,7 +42,7 @@ func init() {
 				},
 				Run:  c12Random,
 				Rule: "log-uniform sizes over ten decades, origins anywhere, alignments {0,.5,1} or uniform; 1/5 square boxes, 1/7 equal aspect, 1/11 aspect equal up to 1 ulp",
-				Min:  map[string]int64{"meet_width_limited": 1000, "meet_height_limited": 1000, "align_interior": 1000, "equal_aspect": 1000, "wide_magnitudes": 100000, "cross_product_outside_float32": 10000, "extreme_aspect_ratios": 50000, "subnormal_boxes": 50000, "targets_in_the_top_octave": 50000},
+				Min:  map[string]int64{"meet_width_limited": 1000, "meet_height_limited": 1000, "align_interior": 1000, "equal_aspect": 1000, "wide_magnitudes": 100000, "cross_product_outside_float32": 10000, "extreme_aspect_ratios": 50000, "subnormal_boxes": 50000, "targets_in_the_top_octave": 50000, "target_equals_box_size_in_one_dimension": 10000, "alignment_by_named_constant": 10000},
 			},
 		},
 	})
@@ -153,14 +153,35 @@ func c12Random(c *run.Ctx, idx uint64) {
 	if !(dy > 0) || math.IsInf(float64(dy), 0) {
 		return
 	}
+	if idx%13 == 0 {
+		// the target equals the box's own size, bit for bit, in exactly one
+		// dimension (an icon shown at its natural width in a strip of another height)
+		if r.Bool() {
+			dx = sw
+		} else {
+			dy = sh
+		}
+		c.Count("target_equals_box_size_in_one_dimension", 1)
+	}
 	ax, ay := float32(r.F64()), float32(r.F64())
-	switch r.Intn(5) {
+	switch r.Intn(6) {
 	case 0:
 		ax, ay = 0, 1
 	case 1:
 		ax, ay = 0.5, 0.5
 	case 2:
 		ax, ay = 1, 0
+	case 3:
+		// the library's own names for the three fractions
+		named := [3]float32{ivg.Min, ivg.Mid, ivg.Max}
+		want := [3]float32{0, 0.5, 1}
+		i, j := r.Intn(3), r.Intn(3)
+		ax, ay = named[i], named[j]
+		c.Count("alignment_by_named_constant", 1)
+		if named != want {
+			c.Violate("named-alignment-constants", map[string]interface{}{"Min_Mid_Max": fmt.Sprint(named), "want": fmt.Sprint(want)})
+			return
+		}
 	}
 	c12Check(c, vb, dx, dy, ax, ay)
 }
